@@ -145,3 +145,35 @@ func (tr *Trace) Summary() map[string]any {
 	return map[string]any{"store_ops": len(tr.Ops), "versions": len(tr.History), "flag_edges": len(tr.Edges), "snapshots": len(tr.Snaps),
 		"callbacks": len(tr.CBs), "api_calls": len(tr.APIs), "terms": cs, "virtual_duration": tr.End.String()}
 }
+
+// LoadRegressions reads the committed regression plans of a property
+// (/verif/regressions/<prop>/*.json): shrunk failures of defects that were
+// fixed or recorded, re-executed before the generated cases.
+func LoadRegressions(prop string) []*Plan {
+	dir := os.Getenv("VERIF_REGRESS_DIR")
+	if dir == "" {
+		dir = "/verif/regressions"
+	}
+	ents, err := os.ReadDir(dir + "/" + prop)
+	if err != nil {
+		return nil
+	}
+	var out []*Plan
+	for _, e := range ents {
+		if !strings.HasSuffix(e.Name(), ".json") {
+			continue
+		}
+		b, err := os.ReadFile(dir + "/" + prop + "/" + e.Name())
+		if err != nil {
+			continue
+		}
+		var w struct {
+			Input *Plan `json:"input"`
+		}
+		if json.Unmarshal(b, &w) == nil && w.Input != nil {
+			w.Input.Note = "regression:" + e.Name()
+			out = append(out, w.Input)
+		}
+	}
+	return out
+}
